@@ -295,6 +295,29 @@ let make_input form hex a b =
     | _ -> inp_of_span bs (nat_of_int a) (nat_of_int b) in
   (i, nat_of_int (48 + 3 * List.length bytes))
 
+(* structured value: R<dbg> | N | S(v) | [v, ..] | (v, ..) *)
+let rec fmt_gval (v : gval) : string =
+  match v with
+  | VRef n -> "R<" ^ dbg n ^ ">"
+  | VOpt None -> "N"
+  | VOpt (Some v1) -> "S(" ^ fmt_gval v1 ^ ")"
+  | VVec l -> "[" ^ String.concat ", " (List.map fmt_gval l) ^ "]"
+  | VTuple l -> "(" ^ String.concat ", " (List.map fmt_gval l) ^ ")"
+  | VErr -> "ERR"
+
+(* per accessor: (structured value the model accessor returns, structured value the specification spec_val demands) *)
+let getter_structs (sh : gshape) (t : tnode) : (string * string * string) list =
+  let expr = try Some (Hashtbl.find ast_rules sh.gidx).o_expr with Not_found -> None in
+  List.map (fun (name, x) ->
+    match expr with
+    | None -> (name, "-", "-")
+    | Some e ->
+        let got = match getter e x with Some g -> fmt_gval (call_getter g t) | None -> "-" in
+        let want = match t with
+          | NRule (_, Some c, _) -> (match spec_val x e c with Some v -> fmt_gval v | None -> "-")
+          | _ -> "-" in
+        (name, got, want)) sh.gnames
+
 let getter_values (sh : gshape) (t : tnode) : (string * tnode list * tnode list) list =
   let eoi = n_of_int !cur_eoi in
   let expr = try Some (Hashtbl.find ast_rules sh.gidx).o_expr with Not_found -> None in
@@ -325,10 +348,13 @@ let run_input form hex a b =
           let missing = match (try Some (Hashtbl.find ast_rules sh.gidx).o_expr with Not_found -> None) with
             | None -> ["\tNOAST"]
             | Some ex -> List.filter_map (fun (name, x) -> match getter ex x with None -> Some ("\tMISSING:" ^ name) | Some _ -> None) sh.gnames in
-          Printf.sprintf "ok@%d%s%s\t#D%s" (int_of_nat off)
+          let sts = getter_structs sh t in
+          Printf.sprintf "ok@%d%s%s\t#D%s\t#S%s\t#V%s" (int_of_nat off)
             (String.concat "" (List.map (fun (n, got, _) -> "\t" ^ n ^ "=" ^ fmt_nodes got) vals))
             (String.concat "" missing)
             (String.concat "" (List.map (fun (n, _, want) -> "\t" ^ n ^ "=" ^ fmt_nodes want) vals))
+            (String.concat "" (List.map (fun (n, got, _) -> "\t" ^ n ^ "=" ^ got) sts))
+            (String.concat "" (List.map (fun (n, _, want) -> "\t" ^ n ^ "=" ^ want) sts))
       | Fail _ -> "fail"
       | Panic -> "PANIC"
       | Fuel -> "FUEL" in
